@@ -141,9 +141,19 @@ def c17(ck):
 def c13(ck):
     rnd = ck.rnd
     pool = list(S.SUPPORTED.values()) + [g for gs in S.GROUPS.values() for g in [" \n".join(gs)]] + ["SET hive.x = 1;", "-- a comment line\nCREATE TABLE c1 (x int); -- trailing"]
+    # session settings of several shapes (list values, TO, no '='): whatever the flat result reports for them has a bucket
+    pool += ["SET search_path = app, public;", "SET search_path TO app, audit, public;", "SET statement_timeout = 0;", "SET NAMES utf8mb4;",
+             "SET hive.exec.dynamic.partition.mode=nonstrict;"]
     scripts = [[s] for s in pool]
     for i in range(60 if ck.quick() else 600):
         scripts.append(rnd.sample(pool, rnd.randint(2, 6)))
+    # statements whose target table is not defined in the script: flat and grouped agree (both raise, or both report it)
+    orphans = ["ALTER TABLE nowhere ADD COLUMN c int;", "CREATE INDEX ix_nowhere ON nowhere (c);", "ALTER TABLE s1.nowhere ADD CONSTRAINT pk_n PRIMARY KEY (id);"]
+    for o in orphans:
+        scripts.append([o])
+        for s in rnd.sample(pool, 4):
+            scripts.append([s, o])
+            scripts.append([o, s])
     scripts += [[d] for _, d in corpus()]
     buckets = {"table_name": "tables", "sequence_name": "sequences", "type_name": "types", "domain_name": "domains", "schema_name": "schemas",
                "tablespace_name": "tablespaces", "database_name": "databases", "value": "ddl_properties"}
@@ -181,6 +191,15 @@ def c13(ck):
                         if k in e:
                             exp.setdefault(buckets[k], []).append(e)
                             break
+                # lossless, stated directly: every flat entity is found exactly as often in the buckets as in the flat list
+                in_buckets = [x for b, v in g.items() if b != "comments" and isinstance(v, list) for x in v]
+                for e in flat[1]:
+                    if "comments" in e and len(e) == 1:
+                        continue
+                    if in_buckets.count(e) != flat[1].count(e):
+                        problems.append("flat entity with keys %s appears %d times in the flat list and %d times in the buckets: entity lost"
+                                        % (sorted(e)[:4], flat[1].count(e), in_buckets.count(e)))
+                        break
                 for b in set(list(exp) + [k for k in g if k != "comments"]):
                     if g.get(b, []) != exp.get(b, []):
                         problems.append("bucket %s differs" % b)
@@ -259,6 +278,20 @@ def c03(ck):
                 ck.fail("same-table-named-earlier", (gk, ek), "c03:earlier-statement-captures-alter-or-index", dict(ddl=earlier + "\n" + "\n".join(gs), observed=r, expected=exp))
             else:
                 ck.ok("same-table-named-earlier", (gk, ek))
+    # ... and neither does a LATER statement that names the same table (a tear-down DROP TABLE t; / a re-definition):
+    # (CREATE; ALTER) + [later] == (CREATE; ALTER) alone + later alone
+    for gk, gs in S.GROUPS.items():
+        tname = gs[0].split()[2]
+        for ek, later in (("drop", "DROP TABLE %s;" % tname), ("newer-create", "CREATE TABLE %s (\n    fresh_col int\n);" % tname)):
+            e0, g0 = parse(later), parse("\n".join(gs))
+            if e0[0] != "ok" or g0[0] != "ok":
+                continue
+            r = parse("\n".join(gs) + "\n" + later)
+            exp = entities(g0[1])[0] + entities(e0[1])[0]
+            if r[0] != "ok" or jdump(entities(r[1])[0]) != jdump(exp):
+                ck.fail("same-table-named-later", (gk, ek), "c03:later-statement-captures-alter-or-index", dict(ddl="\n".join(gs) + "\n" + later, observed=r, expected=exp))
+            else:
+                ck.ok("same-table-named-later", (gk, ek))
     # corpus statements next to generated ones
     cp = [d for _, d in corpus() if d.strip().endswith(";")]
     for i, d in enumerate(cp if not ck.quick() else cp[::3]):
